@@ -72,7 +72,8 @@ func (i *Ignore) IsIncluded(path string, index *Index) bool {
 		}
 	}
 	for _, exFile := range i.paths {
-		exRegexp := regexp.MustCompile(exFile)
+		// a pattern has to match whole path components up to the end of the path, not any part of it
+		exRegexp := regexp.MustCompile(fmt.Sprintf("(?:^|/)(?:%s)$", exFile))
 		if exRegexp.MatchString(target) {
 			return true
 		}
